@@ -470,6 +470,22 @@ def filterSeq (p : Feature → Bool) (w : World Feature) (s : MSeq) : MSeq × Wo
   let t := tabFilter p w.T s.tab
   (⟨t.1, s.dat⟩, ⟨w.B, t.2⟩)
 
+/-- `WithFeatures(seq, ff)`, `WithBytes(seq, p)`, `WithInfo(seq, info)`, `Copy(seq)`
+(sequence.go:104-154) on a `BasicSequence`: a new header over the given slices; nothing is
+allocated, nothing is written -/
+def withFeaturesSeq (w : World Feature) (s : MSeq) (tab : Slice) : MSeq × World Feature := (⟨tab, s.dat⟩, w)
+def withBytesSeq (w : World Feature) (s : MSeq) (dat : Slice) : MSeq × World Feature := (⟨s.tab, dat⟩, w)
+def copySeq (w : World Feature) (s : MSeq) : MSeq × World Feature := (s, w)
+
+/-- the memory behaviour of `gts.Repair(ff)` (feature.go:22-69): `gg := make([]Feature, len(ff));
+copy(gg, ff)`, then only stores into `gg` (`gg[indices[i]].Loc = loc`, the compaction
+`gg[i] = gg[j]`), then `gg = gg[:len(keep)]`.  WHICH cells get WHICH values is the business of
+C12; here the stores are an arbitrary list of (index, value) pairs. -/
+def repairMem {φ : Type} [Inhabited φ] (h : Heap φ) (ff : Slice) (stores : List (Nat × φ)) (keep : Nat) :
+    Slice × Heap φ :=
+  let gg := tabCopy h ff
+  (gg.1.upto keep, stores.foldl (fun h (st : Nat × φ) => store h gg.1 st.1 st.2) gg.2)
+
 /-! ### programs: operations applied to the same original value -/
 
 /-- an operation together with its other arguments -/
